@@ -46,14 +46,14 @@ CALLS = {
     "jax.numpy.isscalar": ("np_isscalar", 1), "jax.numpy.squeeze": ("np_squeeze", 1),
     "jax.numpy.full": ("np_full", 2), "jax.numpy.where": ("np_where", 3),
     "jax.numpy.unique": ("np_unique", 1), "jax.numpy.asarray": ("np_asarray", 1),
-    "builtins.sum": ("py_sum", 1),
+    "builtins.sum": ("py_sum", 1), "jax.numpy.atleast_2d": ("np_atleast_2d", 1),
 }
 METHODS = {
     "sum": ("np_sum", 0), "any": ("np_any", 0), "all": ("np_all", 0), "item": ("np_item", 0),
     "lower": ("str_lower", 0), "tolist": ("np_tolist", 0), "values": ("dict_values", 0),
     "todense": ("m_todense", 0),
 }
-ATTRS = {"shape": "np_shape", "ndim": "np_ndim", "size": "np_size", "value": "enum_value",
+ATTRS = {"T": "np_T", "shape": "np_shape", "ndim": "np_ndim", "size": "np_size", "value": "enum_value",
          "start": "slice_start", "stop": "slice_stop", "step": "slice_step"}
 CMPOPS = {ast.Lt: "py_lt", ast.LtE: "py_le", ast.Gt: "py_gt", ast.GtE: "py_ge",
           ast.Eq: "py_eq", ast.NotEq: "py_ne", ast.Is: "py_is", ast.IsNot: "py_is_not",
@@ -610,6 +610,10 @@ class FuncTranslator:
             return "(bind2 np_col %s %s)" % (self.expr(e.value), self.expr(c))
         if isinstance(s, (ast.Tuple, ast.Slice)):
             raise Unsupported("subscript form at line %d" % e.lineno)
+        if isinstance(s, ast.Constant) and s.value is None:
+            return "(bind %s np_expand0)" % self.expr(e.value)
+        if isinstance(s, ast.UnaryOp) and isinstance(s.op, ast.Invert):
+            return "(bind2 py_getitem2 %s %s)" % (self.expr(e.value), self.expr(s))
         return "(bind2 py_getitem %s %s)" % (self.expr(e.value), self.expr(s))
 
     def listcomp(self, e):
@@ -657,6 +661,8 @@ class FuncTranslator:
             if q == "jax.numpy.concatenate" and len(e.args) == 1 and len(e.keywords) == 1 and e.keywords[0].arg == "axis" \
                     and isinstance(e.keywords[0].value, ast.Constant) and e.keywords[0].value.value == 1:
                 return self.apply("np_concat_cols", [self.expr(e.args[0])])
+            if q == "builtins.min" and len(e.args) == 1 and not e.keywords:
+                return self.apply("py_min1", [self.expr(e.args[0])])
             if q in CALLS:
                 g, ar = CALLS[q]
                 if e.keywords or len(e.args) != ar:
